@@ -243,6 +243,16 @@ macro_rules
     `(tactic| simp only [inferType, Option.bind_eq_bind, Option.bind_eq_some_iff, Option.pure_def, Option.some.injEq,
         Option.ite_none_right_eq_some, Bool.and_eq_true, Bool.or_eq_true, decide_eq_true_eq] at $h:ident)
 
+theorem dedupKeys_subset (l : List Val) : ∀ k ∈ dedupKeys l, k ∈ l := by
+  induction l with
+  | nil => intro k hk; simp [dedupKeys] at hk
+  | cons a r ih =>
+    intro k hk
+    simp only [dedupKeys, List.mem_cons, List.mem_filter] at hk
+    rcases hk with hk | hk
+    · exact hk ▸ List.mem_cons_self
+    · exact List.mem_cons_of_mem _ (ih k hk.1)
+
 theorem infer_sound (e : IR) : ∀ (Γ : Ctx) (Δ : Option Ctx) (ρ : Env) (A : List Env) (t : HType),
     inferType Γ Δ e = some t → EnvTyped ρ Γ → AggTyped A Δ → HasType (eval ρ A e) t := by
   induction e
@@ -605,5 +615,48 @@ theorem infer_sound (e : IR) : ∀ (Γ : Ctx) (Δ : Option Ctx) (ρ : Env) (A : 
         simp only [List.mem_map] at hw
         obtain ⟨σ, hσ, rfl⟩ := hw
         exact iha D none σ [] _ hs (hA σ hσ) trivial
+  case aggExplode x e b ihe ihb =>
+    intro Γ Δ ρ A t h hρ hA
+    cases Δ with
+    | none => simp [inferType] at h
+    | some D =>
+      inv_bind at h
+      obtain ⟨st, hs, h⟩ := h
+      cases st <;> simp only [reduceCtorEq] at h
+      rename_i u
+      simp only [eval]
+      refine ihb Γ _ ρ _ t h hρ ?_
+      intro σ hσ
+      simp only [List.mem_flatMap] at hσ
+      obtain ⟨σ0, hσ0, hσ⟩ := hσ
+      rcases asArr_typed (ihe D none σ0 [] _ hs (hA σ0 hσ0) trivial) (t := u) rfl with ⟨vs, h1, _, h3⟩ | ⟨o, h1, h2⟩
+      · rw [h1] at hσ
+        simp only [explodeEnv, List.mem_map] at hσ
+        obtain ⟨w, hw, rfl⟩ := hσ
+        exact envTyped_cons (hA σ0 hσ0) (h3 w hw) x
+      · rw [h1] at hσ
+        simp [explodeEnv] at hσ
+  case aggGroupBy k b ihk ihb =>
+    intro Γ Δ ρ A t h hρ hA
+    cases Δ with
+    | none => simp [inferType] at h
+    | some D =>
+      inv_bind at h
+      obtain ⟨kt, hk, bt, hb, rfl⟩ := h
+      simp only [eval]
+      refine .dict ?_ ?_
+      · intro p hp
+        simp only [List.mem_map] at hp
+        obtain ⟨kv, hkv, rfl⟩ := hp
+        have := dedupKeys_subset _ kv hkv
+        simp only [List.mem_map] at this
+        obtain ⟨σ, hσ, rfl⟩ := this
+        exact ihk D none σ [] _ hk (hA σ hσ) trivial
+      · intro p hp
+        simp only [List.mem_map] at hp
+        obtain ⟨kv, hkv, rfl⟩ := hp
+        refine ihb Γ _ ρ _ _ hb hρ ?_
+        intro σ hσ
+        exact hA σ (List.mem_filter.mp hσ).1
 
 end HailVerif.ExprIR
